@@ -25,7 +25,9 @@ Definition clip_len (a b : Z) (i : ivl) : Z := Z.max 0 (Z.min (fend i) b - Z.max
 Fixpoint measure (evs : list ivl) (a b : Z) : Z :=
   match evs with
   | [] => 0
-  | x :: r => clip_len a b x + measure r a b - measure r (Z.max a (fstart x)) (Z.min b (fend x))
+  | x :: r =>
+    if b <=? a then 0          (* an empty window: nothing to count (keeps the recursion from branching) *)
+    else clip_len a b x + measure r a b - measure r (Z.max a (fstart x)) (Z.min b (fend x))
   end.
 
 (* ---------- local calendar periods ---------- *)
